@@ -289,6 +289,7 @@ func readBack(ch syncer.Channel, h int, as int) held {
 		buf := make([]byte, 0, n)
 		got := make(chan struct{})
 		var mu sync.Mutex
+		endedEarly := ""
 		go func() {
 			defer close(got)
 			b := make([]byte, 4096)
@@ -298,6 +299,11 @@ func readBack(ch syncer.Channel, h int, as int) held {
 				buf = append(buf, b[:k]...)
 				mu.Unlock()
 				if err != nil {
+					if int64(len(buf)) < n {
+						mu.Lock()
+						endedEarly = fmt.Sprintf("reader ended after %d of %d bytes: %v", len(buf), n, err)
+						mu.Unlock()
+					}
 					return
 				}
 			}
@@ -325,7 +331,10 @@ func readBack(ch syncer.Channel, h int, as int) held {
 		if int64(len(buf)) > n {
 			buf = buf[:n]
 		}
-		return append([]byte{}, buf...), ""
+		if endedEarly == "" && int64(len(buf)) < n {
+			endedEarly = fmt.Sprintf("reader still open, nothing for 1.5 s after %d of %d bytes", len(buf), n)
+		}
+		return append([]byte{}, buf...), endedEarly
 	}
 	if out.RdbSize > 0 && out.RdbLeft >= 0 {
 		// the reader at the snapshot's own offset is the log that follows it; any offset before it yields the snapshot
@@ -350,6 +359,11 @@ func readBack(ch syncer.Channel, h int, as int) held {
 			out.ReaderErr = e
 		}
 		out.Readable = int64(len(b)) + (start - out.Left)
+		if os.Getenv("VERIF_DEBUG") != "" && out.Readable < out.Right-out.Left {
+			b2, e2 := read(start+int64(len(b)), out.Right-start-int64(len(b)), true)
+			b3, e3 := read(start, out.Right-start, true)
+			fmt.Fprintf(os.Stderr, "DEBUG short read: first %d of %d; second reader at %d gave %d (%q); third from start gave %d (%q)\n", len(b), out.Right-start, start+int64(len(b)), len(b2), e2, len(b3), e3)
+		}
 		for i := range b {
 			if b[i] != Byte(as, start+int64(i)) {
 				out.Match = false
@@ -784,6 +798,7 @@ func main() {
 	shard := flag.Int("shard", 0, "")
 	shards := flag.Int("shards", 1, "")
 	work := flag.String("work", os.TempDir(), "scratch directory for the disk caches")
+	only := flag.Int("only", 0, "run this scenario id only (0 = all)")
 	flag.Parse()
 	hx.QuietLogs()
 	config.GetSyncerConfig().Channel = &config.ChannelConfig{VerifyCrc: true}
@@ -806,6 +821,9 @@ func main() {
 		// (scenario streams far apart in the generator's sequence: consecutive seeds would give streams shifted by one draw)
 		r := hx.NewRng(*seed*15485863 + uint64(s)*0x632BE59BD9B4E019)
 		sc := genScenario(r, s+1)
+		if *only > 0 && sc.id != *only {
+			continue
+		}
 		wd.Kick(fmt.Sprintf("scenario %d %s disk=%v", sc.id, sc.fkind, sc.disk))
 		if r.Chance(20) {
 			sc.fkind = "direct"
